@@ -54,7 +54,8 @@ class GenElab:
                         snap_pool.append(s["name"])
                     out.append(["snapshot", s, en])
             elif rng.random() < self.misuse * 4:
-                out.append(["invalid", rng.choice(["error_not_exception_class", "error_wrong_type",
+                out.append(["invalid", rng.choice(["error_not_exception_class", "error_wrong_type", "error_callable_object",
+                                                   "error_builtin", "error_callable_object_ensure",
                                                    "snapshot_no_args_no_name", "snapshot_many_args_no_name"]), en])
         return out
 
@@ -167,6 +168,13 @@ def py_deco(d, lines, ind):
             return "@icontract.require(lambda: True, error=int%s)" % en
         if k == "error_wrong_type":
             return "@icontract.ensure(lambda: True, error=42%s)" % en
+        # callable, but neither a function, a method, an exception class nor an exception instance
+        if k == "error_callable_object":
+            return "@icontract.require(lambda: True, error=W.partial_error%s)" % en
+        if k == "error_callable_object_ensure":
+            return "@icontract.ensure(lambda: True, error=W.callable_error%s)" % en
+        if k == "error_builtin":
+            return "@icontract.require(lambda: True, error=len%s)" % en
         if k == "snapshot_no_args_no_name":
             return "@icontract.snapshot(lambda: 1%s)" % en
         if k == "snapshot_many_args_no_name":
@@ -239,7 +247,7 @@ def py_op(i, op, class_names):
             arg = "c_%d" % c["cid"]
         elif d["invalid"] == "error_wrong_type":
             helpers_all.append("def c_%d(self): return True" % c["cid"])
-            arg = "c_%d, error='boom'" % c["cid"]
+            arg = "c_%d, error=%s" % (c["cid"], "'boom'" if c["cid"] % 2 else "W.partial_error")
         else:
             helpers_all.append("def c_%d(self): return W.cond('inv', %d, {'self': self})" % (c["cid"], c["cid"]))
             arg = "c_%d" % c["cid"]
@@ -257,6 +265,7 @@ def py_op(i, op, class_names):
 # ------------------------------------------------------------------ Coq terms
 MK = {"plain": "MPlain", "static": "MStatic", "classm": "MClassM", "get": "MGet", "set": "MSet", "del": "MDel"}
 INVALID_EXN = {"error_not_exception_class": "ValueError", "error_wrong_type": "ValueError",
+               "error_callable_object": "ValueError", "error_callable_object_ensure": "ValueError", "error_builtin": "ValueError",
                "snapshot_no_args_no_name": "ValueError", "snapshot_many_args_no_name": "ValueError",
                "invariant_with_params": "ValueError", "invariant_coroutine": "ValueError"}
 
